@@ -10,6 +10,12 @@ Layers (DESIGN.md §8 C11):
            cycle   : real processing.process_changing_cause driven cycle by cycle (events in between, a new
                      "process" = new loop-clock origin at every restart position); the stored record after
                      every cycle and every entry
+  T-ties   subhandlers    : a change handler calling kopf.execute(handlers=[...]) with 1-2 scripted sub-handlers under
+                     asap / one_by_one / all_at_once; each sub-handler's observed ticks (batch start, call, raise,
+                     batch end) are replayed by the generic driver [run]: accepted + same entries
+           multi_activity : run_activity with 2-3 handlers; the lifecycle callback (a public parameter) snapshots every
+                     handler's real HandlerState at each batch; ticks (also idle ones: not offered = not awakened)
+                     are replayed by [run_check]: accepted + same state after every batch + same entries
   monitors the property text evaluated on the observed entries (spacing, count, timeout, nothing after a final
            outcome, verdict) — independent of the model.
 All times are integer milliseconds, multiples of 125 ms, so kopf's float arithmetic is exact.
